@@ -6,7 +6,7 @@ import itertools
 import numpy as np
 import quaternion
 
-from .. import gen
+from .. import gen, repo
 from ..oracle import embed, refq
 
 ID = "C16"
@@ -294,6 +294,19 @@ def _tri(spec, ctx, R):
         _bw(ctx, "utriangle_backward", "UtriangleQsparse", Um, X, B, n, tags=tags)
     except Exception as e:
         ctx.check("utriangle_backward", False, site="UtriangleQsparse", tags=tags, detail={"exception": repr(e)[:200]})
+    # the optional tol argument (absolute threshold on the diagonal MODULUS that only serves to detect zero pivots): any value well
+    # below the smallest diagonal modulus - passed positionally, by keyword, as Python or numpy float - gives the same solve
+    dmin = float(min(dmu))
+    for tl, how in ((1e-14, "keyword"), (dmin * 1e-2, "keyword"), (dmin * 1e-3, "positional"), (np.float64(dmin * 1e-2), "keyword"), (0.0, "keyword")):
+        try:
+            comps_ = [Tc[..., t].copy() for t in range(4)] + [Bc[..., t].copy() for t in range(4)]
+            with repo.quiet():
+                r = U.UtriangleQsparse(*comps_, tl) if how == "positional" else U.UtriangleQsparse(*comps_, tol=tl)
+            X = refq.qa(np.stack([np.asarray(x, dtype=float) for x in r], axis=-1))
+            _bw(ctx, "utriangle_backward", "UtriangleQsparse:explicit_tol", Um, X, B, n, tags=tags + ["tol_" + how])
+        except Exception as e:
+            ctx.check("utriangle_backward", False, site="UtriangleQsparse:explicit_tol", tags=tags, detail={"exception": repr(e)[:200], "tol": float(tl)})
+    ctx.hit("callform:explicit_tol")
     if spec["idx"] % 25 == 0:
         ctx.sample({"n": n, "nrhs": k, "diag_moduli_upper": dmu})
 
